@@ -153,8 +153,10 @@ def run(ctx):
         raise HarnessError(str(e))
     ctx.extra["approx_model_points_validated_against_pytest"] = nval
     tolforms = [(False, False), (True, False), (False, True), (True, True)]
-    for cplx, (has_rel, has_abs), mode in itertools.product([False, True], tolforms, ["qty", "bare", "dimkw", "qty-same"]):
-        if mode != "qty" and cplx and ctx.tier == "quick":
+    for cplx, (has_rel, has_abs), mode in itertools.product([False, True], tolforms, ["qty", "bare", "dimkw", "qty-same", "qty-real-vs-complex", "qty-complex-vs-real"]):
+        if mode not in ("qty", "qty-real-vs-complex", "qty-complex-vs-real") and cplx and ctx.tier == "quick":
+            continue
+        if mode in ("qty-real-vs-complex", "qty-complex-vs-real") and not cplx:
             continue
         ses = Session(ctx)
         name = f"{mode}:{'complex' if cplx else 'real'}:rel={'given' if has_rel else 'default'}:abs={'given' if has_abs else 'none'}"
@@ -166,20 +168,23 @@ def run(ctx):
                 rr, ri = lr, li
             rho, alpha = ses.scalar("rho"), ses.scalar("alpha")
             A, B, K = ses.dim("A"), ses.dim("B"), ses.dim("K")
-            zl = [ses.z(lr), ses.z(li) if cplx else z3.RealVal(0)]
-            zr = [ses.z(rr), ses.z(ri) if cplx else z3.RealVal(0)]
+            # mixed modes: one operand is written WITHOUT an imaginary part (structurally real), the other is complex
+            lcplx = cplx and mode != "qty-real-vs-complex"
+            rcplx = cplx and mode != "qty-complex-vs-real"
+            zl = [ses.z(lr), ses.z(li) if lcplx else z3.RealVal(0)]
+            zr = [ses.z(rr), ses.z(ri) if rcplx else z3.RealVal(0)]
             zrho = ses.z(rho) if has_rel else qv(RHO0)
             zalpha = ses.z(alpha) if has_abs else None
             ses.assume += [ses.z(rho) >= 0, ses.z(alpha) >= 0]
-            lq = make_quantity(lr + sp.I * li if cplx else lr, A)
-            rscale = rr + sp.I * ri if cplx else rr
+            lq = make_quantity(lr + sp.I * li if lcplx else lr, A)
+            rscale = rr + sp.I * ri if rcplx else rr
             rq = make_quantity(rscale, B)
             kw = {}
             if has_rel:
                 kw["relative_tolerance"] = lift.SymFloat(ses.z(rho), rho)
             if has_abs:
                 kw["absolute_tolerance"] = lift.SymFloat(ses.z(alpha), alpha)
-            if mode in ("qty", "qty-same"):
+            if mode in ("qty", "qty-same", "qty-real-vs-complex", "qty-complex-vs-real"):
                 call = lambda: AP.assert_equal(lq, rq, **kw)
                 call_sw = lambda: AP.assert_equal(rq, lq, **kw)
                 Bv = B.vec
